@@ -310,6 +310,54 @@ theorem writeSlots_read (ns : List Node) (f : File) (hwf : ∀ n ∈ ns, n.hash.
       simp only [Spec.nodeSize]
       omega
 
+theorem leBytes_leVal (l : Bytes) : leBytes (leVal l) l.length = l := by
+  induction l with
+  | nil => rfl
+  | cons b l ih =>
+    simp only [leVal, List.length_cons, leBytes]
+    have hb : b.toNat < 256 := b.toNat_lt
+    have h1 : (b.toNat + 256 * leVal l) % 256 = b.toNat := by omega
+    have h2 : (b.toNat + 256 * leVal l) / 256 = leVal l := by omega
+    rw [h1, h2, ih]
+    simp
+
+/-- a 40-byte slot is the encoding of the node it decodes to -/
+theorem nodeBytes_nodeOfBytes (i : Nat) (bs : Bytes) (h : bs.length = 40) : nodeBytes (nodeOfBytes i bs) = bs := by
+  have h8 : (bs.take 8).length = 8 := by rw [List.length_take]; omega
+  have := leBytes_leVal (bs.take 8)
+  rw [h8] at this
+  simp only [nodeBytes, nodeOfBytes, le8, this, List.take_append_drop]
+
+/-- a torn write of a node that the slot already holds changes nothing; a torn write elsewhere leaves other
+    slots alone -/
+theorem tornSlot_read (f : File) (n : Node) (hw : n.hash.length = 32) (t : Nat) (i : Nat) (bs : Bytes)
+    (hr : f.read (i * Spec.nodeSize) Spec.nodeSize = some bs)
+    (hsame : n.index = i → nodeBytes n = bs) :
+    (f.write (n.index * Spec.nodeSize) ((nodeBytes n).take t)).read (i * Spec.nodeSize) Spec.nodeSize = some bs := by
+  have hN : Spec.nodeSize = 40 := rfl
+  have hlen := File.read_length _ _ _ _ hr
+  have hsz := File.read_size _ _ _ _ hr
+  have hl : ((nodeBytes n).take t).length ≤ 40 := by rw [List.length_take, nodeBytes_length n hw]; omega
+  by_cases hi : n.index = i
+  · have hnb := hsame hi
+    rw [hi]
+    have key : (f.write (i * Spec.nodeSize) ((nodeBytes n).take t)).read (i * Spec.nodeSize) bs.length = some bs := by
+      apply File.read_of_bytes
+      · rw [File.size_write]; have := Nat.le_max_left f.size (i * Spec.nodeSize + ((nodeBytes n).take t).length); omega
+      · intro k hk
+        rw [File.byte_write]
+        split
+        · rename_i hin
+          have hk2 : i * Spec.nodeSize + k - i * Spec.nodeSize = k := by omega
+          rw [hk2, hnb, List.getD_eq_getElem?_getD, List.getElem?_take]
+          have : k < t := by rw [hnb, List.length_take] at hin; omega
+          rw [if_pos this, ← List.getD_eq_getElem?_getD]
+        · exact (File.read_byte _ _ _ _ hr k (by omega)).symm
+    rw [hlen] at key
+    exact key
+  · apply File.read_write_disjoint f _ _ _ _ _ hr
+    rw [hN]; omega
+
 /-- the tree-store part of a flush journal applied to a disk -/
 theorem applyAll_tree_writes (d : Disk) (ns : List Node) :
     d.applyAll (ns.map fun n => SOp.write .tree (n.index * Spec.nodeSize) (nodeBytes n))
